@@ -20,6 +20,7 @@ func main() {
 	ssaDump := flag.Bool("ssa", false, "dump SSA")
 	iter := flag.Int("iter", 0, "iteration mode: number of the loop (by header order)")
 	events := flag.String("events", "", "regexp of callee names recorded as events")
+	inl := flag.Bool("inline", false, "analyse the inlined clone (transparent callees expanded)")
 	flag.Parse()
 	p, err := core.Load(*repo)
 	if err != nil {
@@ -35,6 +36,13 @@ func main() {
 			}
 		}
 		os.Exit(2)
+	}
+	if *inl {
+		fn = p.Inlined(fn)
+		fmt.Println("REGION:")
+		for _, f := range p.Region(fn) {
+			fmt.Println("  ", core.ShortKey(f))
+		}
 	}
 	if *ssaDump {
 		fn.WriteTo(os.Stdout)
